@@ -191,6 +191,7 @@ class Interp:
         self.var_perturb = {}  # variable label count -> list of (jet var index, component tuple)
         self.term_perturb = {}  # terminal repr -> list of (jet var index, component tuple)  (diff w.r.t. coefficient)
         self.subst = {}  # terminal repr -> Expr: evaluate this terminal as the value of its image (C21)
+        self.alias = {}  # repr of a renumbered form argument -> the original one (same field, FormData replace map)
         self.continuous = None  # callable(form argument) -> bool (two-sided poly mode: physical polynomial shared by sides)
         self.flags = set()
         self.min_den = math.inf
@@ -446,6 +447,7 @@ class Interp:
     def refvalue(self, f, side):
         """Jet of the reference value of form argument f: shape (M,) + reference_value_shape."""
         env = self.env(side)
+        f = self.alias.get(repr(f), f)
         el = f.ufl_element()
         rs = tuple(el.reference_value_shape)
         rep = repr(f)
@@ -498,6 +500,7 @@ class Interp:
         return self.refvalue(f, s)
 
     def ev_FormArgument(self, e, s):
+        e = self.alias.get(repr(e), e)
         rep = repr(e)
         if rep in self.subst:
             return self.val(self.subst[rep], s)
